@@ -121,7 +121,7 @@ HIST_RULE = ("history: random multi-round histories of one or two LLO instances 
              "hand-built previous outcomes (any stage string, dangling validity starts, aggregates of every type). Each round is evaluated "
              "from the implementation's own previous outcome. A case is one history; distinct by SHA-1 of its input.")
 HIST_N = dict(n_quick=96, n_thorough=600)
-BRANCH_NAMES['history'] = ['rounds', 'channel_reports', 'promotions', 'retirements', 'erroring_rounds', 'outcome_bytes_compared']
+BRANCH_NAMES['history'] = ['rounds', 'channel_reports', 'promotions', 'retirements', 'erroring_rounds', 'outcome_bytes_compared', 'rounds_run_from_observation_bytes']
 
 
 def hist_prop(idx, expl, assume):
